@@ -2389,6 +2389,8 @@ EbErrorType read_tile_group_obu(Bitstrm *bs, EbDecHandle *dec_handle_ptr, TilesI
                 tile_size = obu_header->payload_size;
             else {
                 tile_size = dec_get_bits_le(bs, tiles_info->tile_size_bytes) + 1;
+                if (tile_size + tiles_info->tile_size_bytes > obu_header->payload_size)
+                    return EB_Corrupt_Frame;
                 obu_header->payload_size -= (tiles_info->tile_size_bytes + tile_size);
             }
 
@@ -2398,7 +2400,10 @@ EbErrorType read_tile_group_obu(Bitstrm *bs, EbDecHandle *dec_handle_ptr, TilesI
             parse_tile_data[tile_num].tile_size = tile_size;
 
             start_parse_tile(dec_handle_ptr, parse_ctxt, tiles_info, tile_num, is_mt);
-            dec_bits_init(bs, (get_bitsteam_buf(bs) + tile_size), obu_header->payload_size);
+            /* the last tile of the group extends to the end of the payload: nothing is left after it */
+            dec_bits_init(bs,
+                          (get_bitsteam_buf(bs) + tile_size),
+                          (tile_num == tg_end) ? 0 : obu_header->payload_size);
         }
     }
 
